@@ -11,6 +11,7 @@ mod elem;
 mod flatten;
 mod split;
 mod strfail;
+mod strsplit;
 mod vecs;
 
 use bump_scope::settings::BumpSettings;
@@ -828,6 +829,7 @@ fn main() {
                 "C16" => {
                     results.push(split::explore(thorough, deadline));
                     results.push(flatten::explore(thorough));
+                    results.push(strsplit::explore(thorough));
                 }
                 "C07" => {
                     results.push(split::explore_alloc_failures(thorough, deadline));
@@ -853,6 +855,13 @@ fn main() {
                 match abort_verdict(ci.parse().expect("ci"), name) {
                     Ok(_) => println!("REPLAY OK"),
                     Err(m) => println!("REPLAY VIOLATION step=0 msg={m}"),
+                }
+                return;
+            }
+            if case.starts_with("strsplit:") {
+                match strsplit::replay(&case) {
+                    Some(m) => println!("REPLAY VIOLATION step=0 msg={m}"),
+                    None => println!("REPLAY OK"),
                 }
                 return;
             }
